@@ -44,6 +44,9 @@ def st_program(draw, max_points=6, max_edits=30, samplers=True, forks=False, sam
     sel = st.integers(0, 1 << 16)
     n_place = n
     edits = [e for e in EDIT_OPS if (samplers or e != "sampler") and (forks or e != "fork")]
+    if not big and n >= 2 and draw(st.integers(0, 4)) == 0:
+        # chain start as in run.py: every (or the first few) data point(s) in one clone built from a caller-owned list
+        ops.append(["single_start", draw(sel), draw(sel), draw(sel)])
     # placement phase interleaved with representation changes (as particles are copied / serialised between steps)
     for _ in range(n_place):
         if big:
@@ -156,7 +159,11 @@ class Model:
 
 
 def name_of(tree, model, c):
-    return tree.labels[min(model.blocks[c])]
+    labels = tree.labels
+    d = min(model.blocks[c])
+    if d not in labels:
+        raise Violation("structure/data-lost", "data point %d was placed in a clone by the edits so far but the tree's labels do not list it (labels cover %r)" % (d, sorted(labels)), dict())
+    return labels[d]
 
 
 class Machine:
@@ -182,6 +189,7 @@ class Machine:
         self.skipped = 0
         self.classes = set()
         self.on_step = on_step
+        self.caller_lists = []  # (label, list object handed to the Tree API, its contents at that time)
         self.ghosts = []  # (label, tree restored from a snapshot and never edited, snapshot dict, model at that time)
         self.probe = probe  # called on intermediate states inside an edit: probe(machine, tree, partial_model, label)
         self.removal_seen = False
@@ -198,6 +206,14 @@ class Machine:
             except (Violation, HarnessError):
                 raise
             except Exception as e:
+                from vp.common import phyclone_frame
+
+                if phyclone_frame(e) is None:
+                    # the harness tripped while reading the tree (e.g. a label lookup): if the tree the previous steps
+                    # produced no longer matches the model structurally, THAT is the finding; otherwise a harness bug
+                    for t in (self.tree, self.twin):
+                        if t is not None:
+                            structural_invariants(t, self.model, where="before step %d (%s), found when the edit could not read the tree" % (i, name))
                 raise crash_violation("edit/" + name, e, dict(op=name, step=i))
             if ok:
                 if self.removal_seen and name not in ("copy",):
@@ -236,6 +252,21 @@ class Machine:
         return sorted(tree.nodes) == list(range(len(tree.nodes)))
 
     # ------------------------------------------------------------------ placement (SMC grammar)
+    def op_single_start(self, a, b, c):
+        from phyclone.tree import Tree
+
+        if self.model.blocks or self.model.outliers or self.twin is not None or len(self.unplaced) < 2:
+            return False
+        k = len(self.unplaced) if a % 2 == 0 else 2 + (a // 2) % (len(self.unplaced) - 1)
+        pts = self.unplaced[:k]
+        self.unplaced = self.unplaced[k:]
+        lst = [self.data[d] for d in pts]
+        self.tree = Tree.get_single_node_tree(lst)
+        self.caller_lists.append(("get_single_node_tree", lst, list(lst)))
+        self.model.new(pts)
+        self.classes.add("single-node-start-from-caller-list")
+        return True
+
     def op_add_root_clone(self, a, b, c):
         roots = self.model.roots()
         if not self.unplaced or not roots:
@@ -271,7 +302,9 @@ class Machine:
                 node = t.create_root_node(children=ch)
                 t.add_data_point_to_node(self.data[d], node)
             else:
-                t.create_root_node(children=ch, data=[self.data[d]])
+                lst = [self.data[d]]
+                t.create_root_node(children=ch, data=lst)
+                self.caller_lists.append(("create_root_node", lst, list(lst)))
             return t
 
         self._both(fn)
@@ -789,6 +822,11 @@ def check_ghosts(machine, where, structural=True, values=False):
     by later edits of other restores / of the tree the snapshot was taken from (no aliasing of per-clone data lists)."""
     from phyclone.tree import Tree
 
+    for label, lst, orig in machine.caller_lists:
+        # run.py hands its data list to Tree.get_single_node_tree and keeps using it (results["data"]); the kernels pass
+        # lists to create_root_node: later edits of the tree must not reach into the caller's list
+        if len(lst) != len(orig) or any(x is not y for x, y in zip(lst, orig)):
+            raise Violation("aliasing/caller-list", "%s: the list passed to %s earlier was changed by a later tree edit: now holds data points %r, held %r" % (where, label, [dp.idx for dp in lst], [dp.idx for dp in orig]), dict(api=label))
     for label, ghost, snap, model in machine.ghosts:
         w = "%s: tree restored earlier from a %s snapshot and not edited since" % (where, label)
         try:
